@@ -687,10 +687,20 @@ pub fn bytes_roundtrip(bytes: &[u8], obs: &mut Obs) -> PropResult {
 	if out.len() < 20000 {
 		written_through_short_writes(&v, &out)?;
 	}
-	if let Ok((_, file_frames)) = walk_layout_frames(bytes) {
-		frames_agree(&v, &file_frames, obs)?;
+	// With a Long/Double in the pool the crate numbers entries where the JVMS numbers slots (open finding): a file it reads
+	// at all - it then takes the bytes behind the pool for further constants - may even be written back byte for byte, but
+	// the value does not mean what the bytes mean. Exactly that deviation is the recorded one.
+	let meaning = match walk_layout_frames(bytes) {
+		Ok((_, file_frames)) => frames_agree(&v, &file_frames, obs),
+		Err(_) => Ok(()),
 	}
-	tags_agree(&v, bytes, obs)?;
+	.and_then(|_| tags_agree(&v, bytes, obs));
+	if let Err(e) = meaning {
+		if wide && obs.known("C20-long-double-pool-slots") {
+			return Ok(());
+		}
+		return Err(e);
+	}
 	Ok(())
 }
 
